@@ -1,3 +1,5 @@
+pub mod c11;
+pub mod c11_spec;
 pub mod c16;
 
 #[derive(Clone, Debug)]
